@@ -739,7 +739,8 @@ pub fn probe(h: &StreamHist, forged: &Forged) -> ProbeResult {
                     union(&mut allowed, &mut case, &["FlowControl"], if *fin { "stream:beyond-stream-window-fin" } else { "stream:beyond-stream-window" });
                 }
                 if end.max(m.largest) - m.largest > conn_room {
-                    union(&mut allowed, &mut case, &["FlowControl"], "stream:beyond-conn-window");
+                    // with FIN the final size is what counts (RFC 9000 §4.5), whatever part of the data has arrived
+                    union(&mut allowed, &mut case, &["FlowControl"], if *fin { "stream:final-size-beyond-conn-window" } else { "stream:beyond-conn-window" });
                 }
                 if allowed.len() > n0 || (n0 > 0 && !legal) {
                     legal = false;
